@@ -743,6 +743,7 @@ pub struct PreemptPair {
     /// the victim's first `skip_ops` operations are not swept (used for histories whose last operation re-does a
     /// build: only the visits of the repeated build are of interest)
     pub skip_ops: usize,
+    pub mailboxes: usize,
 }
 
 const PREEMPT_ALPHA: [&str; 10] = ["a", "Z", "1", "_", ":", "[", "\u{e9}", " ", "\u{663}", "\u{3b2}"];
@@ -758,6 +759,7 @@ fn preempt_cfgs() -> Vec<Vec<Setter>> {
         vec![Setter::IgnoreCase, Setter::Words],
         vec![Setter::Repetitions],
         vec![Setter::Escape(false), Setter::Digits],
+        vec![Setter::NoAnchors],
         vec![],
     ]
 }
@@ -776,50 +778,106 @@ pub fn preempt_pairs(verif_seed: u64, tier: &str) -> Vec<PreemptPair> {
     preempt_pairs_raw(verif_seed, tier).into_iter().map(with_neutral_prefix).collect()
 }
 
-fn preempt_pairs_raw(verif_seed: u64, tier: &str) -> Vec<PreemptPair> {
-    let mut out = vec![];
-    let cfgs = preempt_cfgs();
-    let s = |x: &[&str]| x.iter().map(|t| t.to_string()).collect::<Vec<String>>();
-    // systematic part: every victim that moves between two ranges of a table x every kind of intruder
-    let victims: [&[&str]; 4] = [&["a1"], &["1a"], &["aZ"], &["a 1"]];
-    let intruders: [&[&str]; 3] = [&[":", "["], &["a"], &["1", " "]];
-    for v in victims.iter() {
-        for i in intruders.iter() {
-            for c in cfgs.iter().take(2) {
-                out.push(PreemptPair {
-                    victim: plain_build(s(v), c.clone()),
-                    intruder: plain_build(s(i), c.clone()),
-                    systematic: true,
-                    skip_ops: 0,
-                });
-            }
-        }
+fn strs(x: &[&str]) -> Vec<String> {
+    x.iter().map(|t| t.to_string()).collect()
+}
+
+fn pair_plain(v: &[&str], i: &[&str], cv: &[Setter], ci: &[Setter]) -> PreemptPair {
+    PreemptPair {
+        victim: plain_build(strs(v), cv.to_vec()),
+        intruder: plain_build(strs(i), ci.to_vec()),
+        systematic: true,
+        skip_ops: 0,
+        mailboxes: 0,
     }
-    // a build repeated on the same builder (where a result remembered from the first one would be used) while the
-    // other client builds something else in the gap: only the repeated build is swept, with as many instruction
-    // counts per visit as the step budget allows
-    for (vi, v) in victims.iter().enumerate() {
-        for (i, c) in [(intruders[0], &cfgs[0]), (intruders[1], &cfgs[1])] {
-            let mut victim = plain_build(s(v), c.clone());
-            victim.push(Op::Build { slot: 0 });
-            let skip = victim.len() - 1;
-            if vi % 2 == 1 {
-                // the repeated build on a clone
-                let n = victim.len();
-                victim[n - 1] = Op::Clone { from: 0, to: 1 };
-                victim.push(Op::Build { slot: 1 });
+}
+
+/// A build repeated on the same builder (or on a clone of it), where a result remembered from the first build
+/// would be used, while the other client builds something else in the gap: only the repeated build is swept.
+fn pair_rebuild(v: &[&str], i: &[&str], c: &[Setter], on_clone: bool) -> PreemptPair {
+    let mut victim = plain_build(strs(v), c.to_vec());
+    let skip = victim.len();
+    if on_clone {
+        victim.push(Op::Clone { from: 0, to: 1 });
+        victim.push(Op::Build { slot: 1 });
+    } else {
+        victim.push(Op::Build { slot: 0 });
+    }
+    PreemptPair {
+        victim,
+        intruder: plain_build(strs(i), c.to_vec()),
+        systematic: true,
+        skip_ops: skip,
+        mailboxes: 0,
+    }
+}
+
+/// The two clients work on a builder and its clone (whatever the clones share is shared across the threads): the
+/// victim builds, clones, hands the clone over and builds again (swept); the intruder changes a setting on the clone
+/// and builds it in the gap.
+fn pair_shared(v: &[&str], c: &[Setter], extra: Setter) -> PreemptPair {
+    let mut victim = plain_build(strs(v), c.to_vec());
+    victim.push(Op::Clone { from: 0, to: 1 });
+    victim.push(Op::Send { slot: 1, mailbox: 0 });
+    let skip = victim.len();
+    victim.push(Op::Build { slot: 0 });
+    PreemptPair {
+        victim,
+        intruder: vec![Op::Recv { slot: 0, mailbox: 0 }, Op::Set { slot: 0, setter: extra }, Op::Build { slot: 0 }],
+        systematic: true,
+        skip_ops: skip,
+        mailboxes: 1,
+    }
+}
+
+fn preempt_pairs_raw(verif_seed: u64, tier: &str) -> Vec<PreemptPair> {
+    let w = [Setter::Words];
+    let dws = [Setter::Digits, Setter::Words, Setter::Spaces];
+    let d = [Setter::Digits];
+    let none: [Setter; 0] = [];
+    let na = [Setter::NoAnchors];
+    let rep = [Setter::Repetitions];
+    let esc = [Setter::Escape(false)];
+    // The core (quick and thorough). Victims move between the ranges of a class table, with and without a character
+    // that lies between two ranges; intruders build single characters of every kind; sets of single characters form
+    // character classes, and the same set moved by a power of two in code point lands in the same slot of any
+    // direct-mapped table; unanchored builds go through the self-check with the regex crate.
+    let mut out = vec![
+        pair_plain(&["a1"], &[":", "["], &w, &w),
+        pair_plain(&["1:a"], &["a"], &w, &w),
+        pair_plain(&["a1"], &["1", " "], &dws, &dws),
+        pair_plain(&["aZ"], &[":", "["], &w, &w),
+        pair_plain(&["a 1"], &["a"], &dws, &dws),
+        pair_plain(&["a", "b", "c"], &["\u{e1}", "\u{e2}", "\u{e3}"], &none, &none),
+        pair_plain(&["a", "aa", "ab"], &["x", "xx", "xy"], &na, &na),
+        pair_plain(&["aaa", "aa."], &["bbbb", "b$b"], &rep, &rep),
+        pair_rebuild(&["a1"], &[":", "["], &w, false),
+        pair_rebuild(&["1a"], &["a"], &dws, true),
+        pair_shared(&["1a"], &none, Setter::Digits),
+        pair_shared(&["a1", "b2"], &w, Setter::IgnoreCase),
+        pair_plain(&["1a\u{663}"], &["\u{663}", "7"], &d, &d),
+    ];
+    if tier == "thorough" {
+        let victims: [&[&str]; 7] = [&["a1"], &["1a"], &["aZ"], &["a 1"], &["1:a"], &["a", "b", "c"], &["a", "aa", "ab"]];
+        let intruders: [&[&str]; 5] = [&[":", "["], &["a"], &["1", " "], &["\u{e1}", "\u{e2}", "\u{e3}"], &["x", "xx", "xy"]];
+        let cfgs: [&[Setter]; 5] = [&w, &dws, &none, &na, &esc];
+        for (vi, v) in victims.iter().enumerate() {
+            for (ii, i) in intruders.iter().enumerate() {
+                for (ci, c) in cfgs.iter().enumerate() {
+                    // a third of the cross product, spread evenly
+                    if (vi + ii + ci) % 3 == 0 {
+                        out.push(pair_plain(v, i, c, c));
+                    }
+                }
             }
-            out.push(PreemptPair {
-                victim,
-                intruder: plain_build(s(i), c.clone()),
-                systematic: true,
-                skip_ops: skip,
-            });
+            out.push(pair_rebuild(v, intruders[vi % 5], cfgs[vi % 5], vi % 2 == 1));
+            out.push(pair_shared(v, cfgs[(vi + 1) % 5], if vi % 2 == 0 { Setter::Digits } else { Setter::NoAnchors }));
         }
     }
     // seeded part
+    let cfgs = preempt_cfgs();
     let mut rng = Rng::new(derive(verif_seed, &[0x5052454D, 1]));
-    let n = if tier == "thorough" { 120 } else { 8 };
+    let n = if tier == "thorough" { 60 } else { 3 };
     for _ in 0..n {
         let word = |rng: &mut Rng, max: u64| {
             let len = 1 + rng.below(max);
@@ -841,6 +899,7 @@ fn preempt_pairs_raw(verif_seed: u64, tier: &str) -> Vec<PreemptPair> {
             intruder: plain_build(intruder, ci),
             systematic: false,
             skip_ops: 0,
+            mailboxes: 0,
         });
     }
     out
@@ -850,12 +909,16 @@ fn preempt_pairs_raw(verif_seed: u64, tier: &str) -> Vec<PreemptPair> {
 /// whole history in the gap. `intruder_parked_at` > 0: client 1 starts first and is itself parked at that hook
 /// visit of its build until client 0 is preempted (so it resumes in the middle of its own build).
 pub fn preempt_run(pair: &PreemptPair, hash_seeds: (u64, u64), visit: u64, steps: u32, intruder_parked_at: u64) -> RunSpec {
+    preempt_run_via(pair, hash_seeds, visit, steps, intruder_parked_at, 0)
+}
+
+pub fn preempt_run_via(pair: &PreemptPair, hash_seeds: (u64, u64), visit: u64, steps: u32, intruder_parked_at: u64, via: u8) -> RunSpec {
     let mut preempts = vec![];
-    if intruder_parked_at > 0 {
-        preempts.push(Preempt { client: 1, visit: intruder_parked_at, steps: 0, to: 0 });
+    if intruder_parked_at > 0 && via != 2 {
+        preempts.push(Preempt { client: 1, visit: intruder_parked_at, steps: 0, to: 0, via: 0 });
     }
     if visit > 0 {
-        preempts.push(Preempt { client: 0, visit, steps, to: 1 });
+        preempts.push(Preempt { client: 0, visit, steps, to: 1, via });
     }
     RunSpec {
         clients: vec![
@@ -864,7 +927,7 @@ pub fn preempt_run(pair: &PreemptPair, hash_seeds: (u64, u64), visit: u64, steps
         ],
         sites: vec![],
         sched: SchedSpec::List { decisions: vec![if intruder_parked_at > 0 { 1 } else { 0 }] },
-        mailboxes: 0,
+        mailboxes: pair.mailboxes,
         preempts,
     }
 }
